@@ -234,3 +234,8 @@ func vh_C11_L2_iforward_tsn_keeps_ordered_and_unordered_apart() {
 
 // C11.L7: nothing beyond the window is stored *or tracked* (= C01.L4).
 func vh_C11_L7_nothing_beyond_the_window_is_tracked() { vh_C01_L4_duplicate_suppression() }
+
+// C11.L2e: one skip that covers several partly received messages releases all their bytes (= C07.L3b).
+func vh_C11_L2_skip_covers_several_partial_messages() {
+	vh_C07_L3_skip_covers_several_partial_messages()
+}
